@@ -32,11 +32,22 @@ type c28Prog struct {
 }
 
 type c28Case struct {
-	Progs []c28Prog `json:"progs"`
+	Progs []c28Prog `json:"progs,omitempty"`
 	Yield int64     `json:"yield"` // seed of the schedule perturbation, 0 = none
+	Race  *c28Race  `json:"race,omitempty"`
+}
+
+// c28Race: W goroutines released through a barrier, each calling the real
+// lang.GlobalFIDs.Register on N fresh processes (in rounds, to bound memory).
+type c28Race struct {
+	W int `json:"w"`
+	N int `json:"n"` // registrations per goroutine
 }
 
 type c28Obs struct {
+	Regs     int      `json:"regs"`     // ids collected (race: every Register; batch: every process seen)
+	Distinct int      `json:"distinct"` // distinct ids among them
+	Fresh    bool     `json:"fresh"`    // all of them above the counter at the start of the case
 	Issued  int      `json:"issued"`
 	Leaked  int      `json:"leaked"`
 	Dup     bool     `json:"dup"`
@@ -78,12 +89,13 @@ var c28Raw = []string{
 
 var c28Counter int64
 
-func c28Exec(block string, timeout time.Duration) bool {
+func c28Exec(block string, timeout time.Duration, root func(*lang.Process, uint32)) bool {
 	initMurex()
 	n := atomic.AddInt64(&c28Counter, 1)
 	fork := lang.ShellProcess.Fork(lang.F_FUNCTION | lang.F_NEW_MODULE | lang.F_NO_STDIN | lang.F_CREATE_STDOUT | lang.F_CREATE_STDERR)
 	fork.Name.Set("verif")
 	fork.FileRef = &ref.File{Source: &ref.Source{Module: fmt.Sprintf("murex/verif28-%d", n)}}
+	root(fork.Process, fork.Id)
 	done := make(chan struct{})
 	go func() {
 		fork.Execute([]rune(block))
@@ -136,10 +148,80 @@ func c28Base(mode string) uint64 {
 	return 4
 }
 
+func c28RunRace(r c28Race) Result {
+	initMurex()
+	var o c28Obs
+	before := lang.VerifFidLatest()
+	tableBefore := len(lang.GlobalFIDs.ListAll())
+	const round = 2000
+	ids := make([][]uint32, r.W)
+	left := r.N
+	for left > 0 {
+		n := round
+		if n > left {
+			n = left
+		}
+		left -= n
+		procs := make([][]*lang.Process, r.W)
+		for w := range procs {
+			procs[w] = make([]*lang.Process, n)
+			for i := range procs[w] {
+				p := new(lang.Process)
+				p.Variables = lang.NewVariables(p)
+				procs[w][i] = p
+			}
+		}
+		start := make(chan struct{})
+		var wg sync.WaitGroup
+		for w := 0; w < r.W; w++ {
+			wg.Add(1)
+			go func(w int) {
+				defer wg.Done()
+				<-start
+				for _, p := range procs[w] {
+					ids[w] = append(ids[w], lang.GlobalFIDs.Register(p))
+				}
+			}(w)
+		}
+		close(start)
+		wg.Wait()
+		for w := range procs {
+			for _, p := range procs[w] {
+				lang.GlobalFIDs.Deregister(p.Id)
+			}
+		}
+	}
+	seen := map[uint32]struct{}{}
+	o.Fresh = true
+	for w := range ids {
+		for _, id := range ids[w] {
+			o.Regs++
+			seen[id] = struct{}{}
+			if id <= before {
+				o.Fresh = false
+			}
+		}
+	}
+	o.Distinct = len(seen)
+	o.Issued = int(lang.VerifFidLatest() - before)
+	o.Leaked = len(lang.GlobalFIDs.ListAll()) - tableBefore
+	if o.Leaked < 0 {
+		o.Leaked = 0
+	}
+	o.Src = []string{fmt.Sprintf("register race: %d goroutines x %d Register calls", r.W, r.N)}
+	coq := coqlit.Record("k_progs", "[]", "k_trees", "[]", "k_exact", "false",
+		"k_issued", coqlit.N(uint64(o.Issued)), "k_leaked", coqlit.N(uint64(o.Leaked)), "k_dup", "false",
+		"k_regs", coqlit.N(uint64(o.Regs)), "k_distinct", coqlit.N(uint64(o.Distinct)), "k_fresh", coqlit.Bool(o.Fresh))
+	return Result{Obs: o, Coq: coq, Nontrivial: true, Class: "register-race"}
+}
+
 func (c28) Run(raw json.RawMessage) Result {
 	var c c28Case
 	if err := json.Unmarshal(raw, &c); err != nil {
 		die("C28: bad case: %v", err)
+	}
+	if c.Race != nil {
+		return c28RunRace(*c.Race)
 	}
 	rmInit()
 	var o c28Obs
@@ -204,11 +286,17 @@ func (c28) Run(raw json.RawMessage) Result {
 
 	var wg sync.WaitGroup
 	var timeouts int32
+	roots := map[*lang.Process]uint32{}
+	var rootMu sync.Mutex
 	for i, p := range c.Progs {
 		wg.Add(1)
 		go func(src string) {
 			defer wg.Done()
-			if !c28Exec(src, 60*time.Second) {
+			if !c28Exec(src, 60*time.Second, func(p *lang.Process, id uint32) {
+				rootMu.Lock()
+				roots[p] = id
+				rootMu.Unlock()
+			}) {
 				atomic.AddInt32(&timeouts, 1)
 			}
 		}(c28Src(p, i))
@@ -249,6 +337,21 @@ func (c28) Run(raw json.RawMessage) Result {
 			byProc[p] = id
 		}
 	}
+	for p, id := range roots {
+		byProc[p] = id
+	}
+	// every process seen (sampled from the table, or the root fork of a program):
+	// their ids must be pairwise distinct and above the counter at the start
+	distinct := map[uint32]struct{}{}
+	o.Fresh = true
+	for _, id := range byProc {
+		o.Regs++
+		distinct[id] = struct{}{}
+		if id <= before {
+			o.Fresh = false
+		}
+	}
+	o.Distinct = len(distinct)
 
 	progs := make([]string, 0, len(c.Progs))
 	for _, p := range c.Progs {
@@ -270,7 +373,8 @@ func (c28) Run(raw json.RawMessage) Result {
 		}
 	}
 	coq := coqlit.Record("k_progs", coqlit.List(progs), "k_trees", coqlit.List(trees), "k_exact", coqlit.Bool(exact && !o.Timeout),
-		"k_issued", coqlit.N(uint64(o.Issued)), "k_leaked", coqlit.N(uint64(o.Leaked)), "k_dup", coqlit.Bool(o.Dup || o.Stale))
+		"k_issued", coqlit.N(uint64(o.Issued)), "k_leaked", coqlit.N(uint64(o.Leaked)), "k_dup", coqlit.Bool(o.Dup || o.Stale),
+		"k_regs", coqlit.N(uint64(o.Regs)), "k_distinct", coqlit.N(uint64(o.Distinct)), "k_fresh", coqlit.Bool(o.Fresh))
 	class := fmt.Sprintf("batch%d", len(c.Progs))
 	if !exact {
 		class += "/raw"
@@ -290,6 +394,15 @@ func (c28) Gen(seed int64, tier string, emit func(any)) {
 	chain := func(n int) c28Prog {
 		c := rmRandom(rng, modes[rng.Intn(len(modes))], n, 4)
 		return c28Prog{Chain: &c}
+	}
+	// register race: the FID table itself under racing registrations
+	races := []c28Race{{W: 8, N: 8000}, {W: 12, N: 6000}, {W: 16, N: 5000}}
+	if tier == "thorough" {
+		races = append(races, c28Race{W: 16, N: 20000}, c28Race{W: 8, N: 40000}, c28Race{W: 12, N: 15000})
+	}
+	for i := range races {
+		r := races[i]
+		emit(c28Case{Race: &r})
 	}
 	// every raw program alone, without and with perturbation
 	for i, r := range c28Raw {
